@@ -288,7 +288,8 @@ def _spec_hash(spec: dict) -> int:
 
 WARM_STATS = {"strided_layout": 0, "queried_before_use": 0, "other_input_dtypes": 0,
               "readonly_columns": 0, "one_array_as_two_columns": 0,
-              "aborted_operations_before_use": 0, "made_by_another_library_function": 0}
+              "aborted_operations_before_use": 0, "made_by_another_library_function": 0,
+              "derived_by_the_library_from_a_used_tree": 0}
 
 
 def warm(tree, h: int = 0xFFFF) -> None:
@@ -409,6 +410,63 @@ def _via_library(tree, route: int):
         return tree
     WARM_STATS["made_by_another_library_function"] += 1
     return t2
+
+
+def derive(tree, spec: dict, h: int, *, float64_ok: bool = False):
+    """A tree *derived by the library* from an already used one, together with its own node table.
+
+    ``tree`` is queried first (so that anything the library keeps on a tree exists), then handed to
+    one of the library's renumbering / re-linking functions -- sort_tree, redirect_tree, cat_tree
+    with a coincident one-node second tree -- or, with ``float64_ok``, moved by a rigid
+    AffineTransform given as a float64 matrix (the only way a tree gets float64 coordinates).
+    The result is a different tree; the second return value is a spec made of *its own columns*
+    (the caller's oracle then speaks about the tree as it is now, whatever produced it).
+    Returns (tree, spec) unchanged when the route does not apply."""
+    import warnings
+
+    n = len(tree)
+    if n < 2 or n > 3000:
+        return tree, spec
+    warm(tree, h | 0b111111110000)
+    route = h % (4 if float64_ok else 3)
+    try:
+        with warnings.catch_warnings():
+            warnings.simplefilter("ignore")
+            if route == 0:
+                from swcgeom.core import sort_tree
+
+                t2 = sort_tree(tree)
+            elif route == 1:
+                from swcgeom.core import redirect_tree
+
+                t2 = redirect_tree(tree, 1 + (h >> 3) % (n - 1), sort=True)
+            elif route == 2:
+                from swcgeom.core import Tree, cat_tree
+
+                k = (h >> 3) % n
+                one = Tree(1, **{c: np.array(tree.ndata[c][k:k + 1], copy=True)
+                                 for c in tree.ndata if c not in ("id", "pid")})
+                t2 = cat_tree(tree, one, k, 0, translate=False)  # merged: same nodes, renumbered
+                if len(t2) != n:
+                    return tree, spec
+            else:
+                from swcgeom.transforms import AffineTransform
+
+                rng = np.random.default_rng(h % (2**32))
+                q, _ = np.linalg.qr(rng.normal(size=(3, 3)))
+                if np.linalg.det(q) < 0:
+                    q[:, 0] = -q[:, 0]
+                tm = np.eye(4)
+                tm[:3, :3] = q
+                tm[:3, 3] = rng.normal(0, 300, 3)
+                t2 = AffineTransform(tm, center="origin")(tree)
+    except Exception:
+        return tree, spec
+    spec2 = {k: np.array(v, copy=True) for k, v in t2.ndata.items() if k != "id"}
+    if not np.array_equal(t2.ndata["id"], np.arange(len(t2))):
+        return tree, spec
+    WARM_STATS["derived_by_the_library_from_a_used_tree"] += 1
+    return t2, spec2
 
 
 def _narrow_int(a: np.ndarray, salt: int):
